@@ -168,6 +168,29 @@ Qed.
 Lemma key_filter_ok k : k <> [] -> clean k = true -> filter_ok (key_filter k).
 Proof. intros Hne Hc _. split; auto. destruct k; [contradiction|reflexivity]. Qed.
 
+Lemma built_of_data li ac fs scs keys s d :
+  spec_of_prule li ac fs scs keys = Some s -> data_of_spec s = Some d -> Forall filter_ok fs -> keys_ok keys ->
+  exists fsK lK, built (sos li) fsK lK /\ w_triples d = map fst lK /\ w_strings d = flat_map snd lK.
+Proof.
+  intros Hspec Hdata Hfok Hkeys.
+  destruct (spec_inv _ _ _ _ _ _ Hspec) as (its & arch & all & nums & Hits & Harch & Hsot & ->).
+  destruct (data_inv _ _ Hdata) as (lc & acode & acc & m & Hlc & Hac & Hadd & Hm & Hk & Hlen & Hd). cbn [sp_list sp_action sp_items sp_all sp_syscalls sp_keys] in *.
+  set (lst := sos li) in *.
+  rewrite add_items_triples in Hadd. destruct (triples_of_items lst its) as [l|] eqn:Etr; [|discriminate]. cbn [app] in Hadd. injection Hadd as <-.
+  pose proof (built_intro _ _ _ _ Hits Etr Hfok) as Hbuilt.
+  destruct (streq lst "exclude") eqn:Eex.
+  - destruct keys; [|discriminate]. injection Hk as <- <-. exists fs, l. auto.
+  - destruct keys as [|k0 kr] eqn:Ekeys.
+    + cbn [add_keys] in Hk. injection Hk as <- <-. exists fs, l. auto.
+    + rewrite <- Ekeys in *. assert (Hne: keys <> []) by (rewrite Ekeys; discriminate).
+      destruct (keys_as_filter lst _ _ _ _ Eex Hne Hk) as (Hif & t & Htr & Hts & Hss & Hkne). cbn [fst snd] in Hts, Hss.
+      destruct Hkeys as [->|Hcl]; [contradiction|].
+      exists (fs ++ [key_filter (join_keys keys)]), (l ++ [(t, [join_keys keys])]). split; [|split].
+      * apply built_app; auto. econstructor; eauto. apply key_filter_ok; auto. constructor.
+      * rewrite map_app. exact Hts.
+      * rewrite flat_map_app. cbn [flat_map snd app]. exact Hss.
+Qed.
+
 Theorem syscall_form_round_trip (stat : str -> bool) li ac fs scs keys s d :
   spec_of_prule li ac fs scs keys = Some s -> data_of_spec s = Some d ->
   Forall filter_ok fs -> keys_ok keys -> not_finding_103 d ->
